@@ -9,9 +9,23 @@
     ejson-decode  {"doc"}                 → canonical rendering of the decoded entity map
     rjson-encode / rjson-decode           → requests
     coerce        {"value": v, "type": t} → schema-guided coercion of one value (`coerceValue`)
+
+  second round (entity maps with their array order, Diagnostic / Decision, nested coercion of documents):
+    emjson-encode   {"entities": es}      → `EntityMap.MarshalJSON` with the ORDER of the array and of each parents list
+    emjson-reencode {"doc"}               → decode, encode again (what a second Marshal prints; duplicates: last wins)
+    diagjson-encode {"diag": d}           → canonical tree of `json.Marshal(Diagnostic)`
+    diagjson-decode {"doc"}               → decoded Diagnostic (nil and empty slices told apart)
+    decision-encode {"allow": b}          → the text `Decision.MarshalJSON` writes
+    decision-decode {"text": raw}         → `ok allow` / `ok deny` / `err` (not JSON at all)
+    jstr-token      {"text": tok}         → the string a JSON string token denotes (`jsonStringToken`)
+    coerce-nested   {"doc", "type": t}    → unguided decode, then `coerceValue t`
+    coerce-entity   {"doc", "shape", "tags", "declared"} → unguided decode of an entity, then `coerceEntity`
 -/
 import CedarGo.Driver.Ops.Core
 import CedarGo.Model.Json.Value
+import CedarGo.Model.Json.EntityMap
+import CedarGo.Model.Json.Diagnostic
+import CedarGo.Model.Json.Coerce
 namespace CedarGo.Driver
 open Lean CedarGo CedarGo.JsonModel
 
@@ -109,7 +123,99 @@ def opCoerceC13 : Handler := fun _ j => do
   let t ← decSTyC13 (← field j "type")
   .ok (showValue (coerceValue t v))
 
+/-! ## second round -/
+
+/-- entity-map documents: the outer array and each `parents` array in document order, value documents (`attrs`,
+    `tags`) with sorted arrays (a value array is a set) -/
+def canonEntityC13 : J → String
+  | .obj kvs => "{" ++ ",".intercalate (kvs.map fun kv =>
+      hexStr kv.1 ++ ":" ++ (if kv.1 == "attrs" || kv.1 == "tags" then canonVC13 kv.2 else kv.2.canon)) ++ "}"
+  | j => j.canon
+
+def canonEntityMapC13 : J → String
+  | .arr xs => "[" ++ ",".intercalate (xs.map canonEntityC13) ++ "]"
+  | j => j.canon
+
+def opEMJsonEncode : Handler := fun _ j => do
+  let es ← decEntities (← field j "entities")
+  .ok (canonEntityMapC13 (encodeEntityMap es))
+
+def opEMJsonReencode : Handler := fun _ j => do
+  showRC13 canonEntityMapC13 (reencodeEntityMap (← parseDocC13 j))
+
+def decPositionC13 (j : Json) : D PositionM := do
+  match ← jArr j with
+  | [f, o, l, c] => .ok ⟨← jHex f, ← jInt o, ← jInt l, ← jInt c⟩
+  | _ => .error "bad position"
+
+def decSliceC13 {α} (j : Json) (dec : Json → D α) : D (Option (List α)) :=
+  match j with
+  | .null => .ok none
+  | _ => do .ok (some (← (← jArr j).mapM dec))
+
+def decDiagC13 (j : Json) : D DiagnosticM := do
+  let rs ← decSliceC13 (← field j "reasons") fun r => do
+    match ← jArr r with
+    | [p, pos] => .ok (⟨← jHex p, ← decPositionC13 pos⟩ : ReasonM)
+    | _ => .error "bad reason"
+  let es ← decSliceC13 (← field j "errors") fun e => do
+    match ← jArr e with
+    | [p, pos, m] => .ok (⟨← jHex p, ← decPositionC13 pos, ← jHex m⟩ : DiagErrorM)
+    | _ => .error "bad error"
+  .ok ⟨rs, es⟩
+
+def showPositionC13 (p : PositionM) : String := s!"{hex p.filename}:{p.offset}:{p.line}:{p.column}"
+
+def showSliceC13 {α} (sh : α → String) : Option (List α) → String
+  | none => "nil"
+  | some xs => "[" ++ ",".intercalate (xs.map sh) ++ "]"
+
+def showDiagC13 (d : DiagnosticM) : String :=
+  "R=" ++ showSliceC13 (fun (r : ReasonM) => s!"{hex r.policy}@{showPositionC13 r.position}") d.reasons ++
+  " E=" ++ showSliceC13 (fun (e : DiagErrorM) => s!"{hex e.policy}@{showPositionC13 e.position}#{hex e.message}") d.errors
+
+def opDiagJsonEncode : Handler := fun _ j => do
+  .ok (encodeDiagnostic (← decDiagC13 (← field j "diag"))).canon
+
+def opDiagJsonDecode : Handler := fun _ j => do
+  showRC13 showDiagC13 (decodeDiagnostic (← parseDocC13 j))
+
+def opDecisionEncode : Handler := fun _ j => do
+  .ok (hex (encodeDecisionText (← jBool (← field j "allow"))))
+
+/-- `json.Unmarshal(text, &decision)`: a syntax error is reported before `UnmarshalJSON` is reached -/
+def opDecisionDecode : Handler := fun _ j => do
+  let raw ← jHex (← field j "text")
+  match Json.parse raw with
+  | .error _ => .ok "err"
+  | .ok _ => .ok (if decodeDecisionText (trimJsonSpace raw) then "ok allow" else "ok deny")
+
+def opJStrToken : Handler := fun _ j => do
+  match jsonStringToken (← jHex (← field j "text")) with
+  | some s => .ok ("ok S" ++ hex s)
+  | none => .ok "none"
+
+def opCoerceNested : Handler := fun _ j => do
+  let t ← decSTyC13 (← field j "type")
+  showRC13 showValue (decodeCoerced t (← parseDocC13 j))
+
+def opCoerceEntity : Handler := fun _ j => do
+  let declared ← jBool (← field j "declared")
+  let se ← if declared then do
+      let shape ← match ← decSTyC13 (← field j "shape") with
+        | .record attrs => pure attrs
+        | _ => .error "shape not a record type"
+      let tags ← match ← field j "tags" with
+        | .null => pure none
+        | t => do pure (some (← decSTyC13 t))
+      pure (some (⟨shape, tags⟩ : SchemaEntityM))
+    else pure none
+  showRC13 showEntityC13 (decodeEntityCoerced se (← parseDocC13 j))
+
 def c13Ops : List (String × Handler) :=
+  [("emjson-encode", opEMJsonEncode), ("emjson-reencode", opEMJsonReencode), ("diagjson-encode", opDiagJsonEncode),
+   ("diagjson-decode", opDiagJsonDecode), ("decision-encode", opDecisionEncode), ("decision-decode", opDecisionDecode),
+   ("jstr-token", opJStrToken), ("coerce-nested", opCoerceNested), ("coerce-entity", opCoerceEntity)] ++
   [("vjson-encode", opVJsonEncode), ("vjson-decode", opVJsonDecode), ("uid-decode", opUIDDecode),
    ("ext-decode", opExtDecode), ("ejson-encode", opEJsonEncode), ("ejson-decode", opEJsonDecode),
    ("rjson-encode", opRJsonEncode), ("rjson-decode", opRJsonDecode), ("coerce", opCoerceC13)]
